@@ -298,6 +298,10 @@ impl UserFunction for TestFn {
             prior = l.iter().filter(|c| c.name == self.model.name).count();
             l.push(Call { name: self.model.name.to_string(), arg: format!("{params:?}") });
         }
+        if self.model.name == "boom_ctx" {
+            // a failure with a context layer: the outcome must carry the same chain, not a flattened copy
+            return Err(anyhow::anyhow!("inner cause").context("outer context"));
+        }
         if self.model.name == "boom_reval" {
             // the failure is a `reval::Error` wrapped by anyhow (what `let n: i64 = params.try_into()?` produces in user code)
             return Err(anyhow::Error::new(reval::Error::InvalidType));
@@ -313,7 +317,8 @@ fn b_count(_v: &Value, n: usize) -> Result<Value, String> { Ok(Value::Int(n as i
 fn b_fail_on_neg(v: &Value, _n: usize) -> Result<Value, String> {
     match v { Value::Int(i) if *i < 0 => Err(format!("negative {i}")), other => Ok(other.clone()) }
 }
-fn b_fail_reval(_v: &Value, _n: usize) -> Result<Value, String> { Err(reval::Error::InvalidType.to_string()) }
+fn b_fail_reval(_v: &Value, _n: usize) -> Result<Value, String> { Err(format!("{} #typed", reval::Error::InvalidType)) }
+fn b_fail_ctx(_v: &Value, _n: usize) -> Result<Value, String> { Err("outer context #chain2".to_string()) }
 fn b_fail_first(v: &Value, n: usize) -> Result<Value, String> { if n == 0 { Err("first call fails".into()) } else { Ok(v.clone()) } }
 
 fn fn_models() -> Vec<FnModel> {
@@ -326,6 +331,7 @@ fn fn_models() -> Vec<FnModel> {
         FnModel { name: "get_more", cacheable: true, behaviour: b_identity },
         FnModel { name: "flaky", cacheable: true, behaviour: b_fail_first },
         FnModel { name: "boom_reval", cacheable: true, behaviour: b_fail_reval },
+        FnModel { name: "boom_ctx", cacheable: false, behaviour: b_fail_ctx },
     ]
 }
 
@@ -345,6 +351,23 @@ fn run_real(rules: &[(String, Expr)], symbols: &BTreeMap<String, Value>, facts: 
     }
     for (n, e) in rules {
         b = b.with_rule(Rule::new(n.clone(), BTreeMap::new(), e.clone())).map_err(|e| format!("with_rule: {e}"))?;
+    }
+    // the same ruleset built through ONE with_rules batch must list the same rules in the same order (C09: "in the order the rules were added")
+    if rules.len() >= 2 {
+        let mut b2 = ruleset();
+        for m in fn_models() {
+            b2 = b2.with_function(TestFn { model: m, log: Arc::new(Mutex::new(Vec::new())) }).map_err(|e| format!("with_function: {e}"))?;
+        }
+        for (k, v) in symbols { b2 = b2.with_symbol(k.clone(), v.clone()); }
+        let batch: Vec<Rule> = rules.iter().map(|(n, e)| Rule::new(n.clone(), BTreeMap::new(), e.clone())).collect();
+        let rs2 = b2.with_rules(batch).map_err(|e| format!("with_rules: {e}"))?.build();
+        let got = catch_unwind(AssertUnwindSafe(|| block_on(rs2.evaluate_value(facts)))).map_err(|_| "PANIC (ruleset built by with_rules)".to_string())?
+            .map_err(|e| format!("evaluate_value failed as a whole: {e}"))?;
+        let names: Vec<String> = got.iter().map(|o| o.rule.name().to_string()).collect();
+        let want: Vec<String> = rules.iter().map(|(n, _)| n.clone()).collect();
+        if names != want {
+            return Err(format!("ruleset built by with_rules({want:?}) reports its outcomes in the order {names:?}"));
+        }
     }
     let rs = b.build();
     let mut out = vec![];
@@ -412,6 +435,7 @@ fn check_scenario(rep: &mut Report, what: &str, tags: &[&str], rules: Vec<(Strin
     let desc = format!("{what}: rules = [{}]  facts = {facts}", rules.iter().map(|(n, e)| format!("{n}: {e}")).collect::<Vec<_>>().join(" ; "));
     let (exp_out, exp_log) = run_model(&rules, symbols, facts);
     match run_real(&rules, symbols, facts, 2) {
+        Err(e) if e.starts_with("ruleset built by with_rules") => rep.fail(&["C09", "C15"], "with_rules.order", &desc, &e, "the order in which the rules were added"),
         Err(e) => rep.fail(tags, "scenario.setup", &desc, &e, "ruleset builds"),
         Ok(runs) => {
             for (k, run) in runs.iter().enumerate() {
@@ -515,7 +539,7 @@ fn family_ruleset() {
         Expr::iif(Expr::none(call("get", v(-1))), v(0), v(1)),
         // None as an argument and as a (cached) result; a cacheable identity
         call("id", v(Value::None)), call("id", v(1)), call("count", v(Value::None)), call("count_nc", v(Value::None)), call("get_more", v(Value::None)),
-        call("boom_reval", v(1)), Expr::add(call("boom_reval", v(1)), v(1)),
+        call("boom_reval", v(1)), Expr::add(call("boom_reval", v(1)), v(1)), call("boom_ctx", v(1)),
     ];
     // all pairs and a selection of triples
     for (i, a) in blocks.iter().enumerate() {
@@ -1039,6 +1063,18 @@ fn family_parse(deep: bool) {
     for c in 0u8..128 {
         try_parse(&mut rep, &format!("\"\\{}\"", c as char));
         try_parse(&mut rep, &format!("\"a\\{}", c as char));
+    }
+    // long multi-byte text where the grammar does not allow it (error messages that quote or cut the offending text at a byte offset)
+    for unit in ["日", "é", "𝔘", "a\u{301}"] {
+        for n in [40usize, 100, 300] {
+            for pad in 0..4usize {
+                let long = unit.repeat(n);
+                try_parse(&mut rep, &format!("i1 {}\"{long}\"", "a".repeat(pad)));
+                try_parse(&mut rep, &format!("{}{long} i1", "a".repeat(pad)));
+                try_parse(&mut rep, &format!("// {long}\n@k{}: \"{long}\" \"{long}\"; x", "a".repeat(pad)));
+                try_parse(&mut rep, &format!("f{}(\"{long}\" \"x\")", "a".repeat(pad)));
+            }
+        }
     }
     // unknown / truncated escapes next to multi-byte characters (error paths that quote the escape by position)
     for pre in ["", "é", "éé", "Zoë", "日本", "𝔘", "a\u{301}"] {
